@@ -64,8 +64,10 @@ theorem C23_build_memSpec (b : Block) (es : List Edge) (h : buildBlock b = .ok e
       obtain ⟨h1, r, k2, h2, h3, h4⟩ := hj e (hnew e he (by rw [hk]; rfl)) k hk
       refine ⟨h1, r, k2, ?_, ?_, h4⟩
       · obtain ⟨p, hp, hp1, hp2⟩ := mem_memLog.1 h2
+        simp only at hp1 hp2
         exact ⟨p.2, by rw [← hp1]; exact hp, hp2⟩
       · obtain ⟨p, hp, hp1, hp2⟩ := mem_memLog.1 h3
+        simp only at hp1 hp2
         exact ⟨p.2, by rw [← hp1]; exact hp, hp2⟩
   · cases h
 
@@ -148,8 +150,7 @@ private theorem ReachVia.head {E : List Edge} {P : Edge → Prop} {u v : Node} (
     u = v ∨ ∃ e ∈ E, P e ∧ e.src = u ∧ ReachVia E P e.dst v := by
   induction h with
   | refl => exact .inl rfl
-  | step _ he hp ih =>
-    rename_i e'
+  | @step e' _ he hp ih =>
     rcases ih with rfl | ⟨e, he', hpe, hs, hr⟩
     · exact .inr ⟨e', he, hp, rfl, .refl _⟩
     · exact .inr ⟨e, he', hpe, hs, .step hr he hp⟩
